@@ -247,7 +247,7 @@ int main(int argc, char **argv)
 """
 
 
-def make_stream_spec(prog, acts, eofs, rng, backend, lineno_on, extra_options=None, scopes=False, prologue=""):
+def make_stream_spec(prog, acts, eofs, rng, backend, lineno_on, extra_options=None, scopes=False, prologue="", eof_unq=None):
     """acts: {rule number: [ops]}, eofs: {sc number: [ops]}"""
     defs = {}
     bol_obs = any(r.get('bol') for r in prog['rules'])
@@ -283,9 +283,16 @@ def make_stream_spec(prog, acts, eofs, rng, backend, lineno_on, extra_options=No
     out.append("%%")
     for i, p in enumerate(pats):
         out.append("%s\t{ %s }" % (p, action_c(i + 1, acts.get(i + 1, []), backend, lineno_on, bol_obs)))
+    unq = sorted(eof_unq or [])
     for sc, ops in sorted(eofs.items()):
+        if sc in unq:
+            continue
         body = 'printf("E %d\\n");' % (sc - 1) + " " + action_c(0, ops, backend, lineno_on, bol_obs)
         out.append("<%s><<EOF>>\t{ %s }" % (scanner.sc_name(sc), body))
+    if unq:
+        # one unqualified rule for all the conditions that have no <<EOF>> rule of their own (it follows the qualified ones)
+        body = 'printf("E %%d\\n", (int) %s);' % API[backend]['start'] + " " + action_c(0, eofs[unq[0]], backend, lineno_on, bol_obs)
+        out.append("<<EOF>>\t{ %s }" % body)
     out.append("%%")
     out.append(EV_C + MAIN[backend])
     return "\n".join(out) + "\n"
@@ -328,7 +335,7 @@ def eval_stream_case(flex, workdir, case):
     prog = case['prog']
     backend = case['backend']
     bol_obs = any(r.get('bol') for r in prog['rules'])
-    text = make_stream_spec(prog, case['acts'], case['eofs'], Rng(case['seed']).fork("print"), backend, case['lineno'],
+    text = make_stream_spec(prog, case['acts'], case['eofs'], Rng(case['seed']).fork("print"), backend, case['lineno'], eof_unq=case.get('eof_unq'),
                             extra_options=case.get('extra_options'), prologue=case.get('prologue', ""))
     res['text'] = text
     with open(os.path.join(workdir, "s.l"), "w") as f:
@@ -540,6 +547,18 @@ def gen_stream_case(rng, cid, focus, backend='nr', flex_opts=None, lineno=None, 
                     ops.append(('begin', rng.rng(1, nsc)))
                 ops.append(('terminate',))
                 eofs[sc] = ops
+    eof_unq = None
+    if 'eof' in focus and rng.chance(50):
+        # an unqualified <<EOF>> rule: it applies to exactly the conditions that have no rule of their own
+        rest = [sc for sc in range(1, nsc + 1) if sc not in eofs]
+        if rest:
+            ops = []
+            if rng.chance(30):
+                ops.append(('begin', rng.rng(1, nsc)))
+            ops.append(('terminate',))
+            for sc in rest:
+                eofs[sc] = list(ops)
+            eof_unq = rest
     if lineno is None:
         lineno = 'lineno' in focus or rng.chance(40)
     ns = nsources or (rng.weighted([(1, 5), (2, 3), (3, 2)]) if 'wrap' in focus or 'eof' in focus else 1)
@@ -569,5 +588,5 @@ def gen_stream_case(rng, cid, focus, backend='nr', flex_opts=None, lineno=None, 
                     ins[-1] = ins[-1] + m[:max(1, len(m) - 1)]
                 sess.append(ins)
             runs.append({'sessions': sess, 'mode': rng.pick(['a', 'r'])})
-    return {'id': cid, 'runs': runs, 'prog': prog, 'acts': acts, 'eofs': eofs, 'lineno': lineno, 'backend': backend, 'flex_opts': opts,
+    return {'id': cid, 'runs': runs, 'prog': prog, 'acts': acts, 'eofs': eofs, 'eof_unq': eof_unq, 'lineno': lineno, 'backend': backend, 'flex_opts': opts,
             'sources': sources, 'seed': rng.s, 'focus': sorted(focus), 'text': ''}
